@@ -35,6 +35,7 @@ if h:
                     "T": "Walk.tree_all vs nametree FromFile.All",
                     "O": "Walk.outline_items vs outline.Decode",
                     "X": "XRefCount.read_xref_stream vs checkXRefStreamDict+decodeXRefStream",
+                    "G": "ObjStmGet.get_in (no re-entry of object streams) vs Reader.Get of compressed objects",
                 }
                 by = {}
                 for k, a, b in mism:
@@ -53,12 +54,13 @@ c.finish(
         "object graphs for the page tree, outline walkers are finite association lists (the cross-reference table is finite); reference following and the name tree walker need no finiteness (depth caps)",
     ],
     trusted=[
-        "hand-written Gallina models coq/C05/{Refill,PrevChain,Resolve,Walk,XRefCount}.v of scanner.go, xref.go, resolve.go, pagetree/read.go, internal/pdftree/streaming.go, outline/outline.go - tied by correspondence on generated cases, constants by translation (Gen_C05, Gen_Limits, Gen_Consts)",
+        "hand-written Gallina models coq/C05/{Refill,PrevChain,Resolve,Walk,XRefCount,ObjStmGet}.v of scanner.go, xref.go, resolve.go, reader.go (get/getFromObjStm), container.go (GetFilters), pagetree/read.go, internal/pdftree/streaming.go, outline/outline.go - tied by correspondence on generated cases, constants by translation (Gen_C05, Gen_Limits, Gen_Consts)",
         "/repo/verif_c05.go (build tag verif): calls the unexported scanner operations and checkXRefStreamDict/decodeXRefStream",
         "watchdog, runtime.MemStats and runtime.NumGoroutine readings of harness/c05",
     ],
     partial=[
         "MEASURED, not proved: no theorem speaks about goroutines, allocation or seconds. The harness measures wall time (budget 3 s + 0.15 ms/byte, hang watchdog 10 s), TotalAlloc (budget 512 MiB + 16 KiB/byte) and runtime.NumGoroutine before/after every case and re-runs a suspect three times in fresh processes.",
+        "objstm_get_reentry_refuted: a variant of Reader.get that fetches the dictionary entries of an object stream with canObjStm = true re-enters without bound (proved on the variant model, depflag = true); the code as it is satisfies objstm_get_depth_bounded. The model abstracts /Length, /N, /First, /Extends resolution into the same dependency list as /Filter and /DecodeParms",
         "scan_bytes_spin_refuted: on the code BEFORE the F16 repair ScanBytes spins for every fuel once the source error is latched and the buffer consumed (proved on the variant model scan_bytes_prefix); the code as it is now satisfies scan_bytes_total",
         "the theorems cover the termination skeletons (buffer state machine, /Prev loop, reference following, the three walkers, xref-stream entry count); the object syntax (C01), xref table parsing, filters (C08), font programs, JBIG2, DCT, content-stream interpretation are exercised by the mutant walk only",
         "tree_walk_once proves at-most-once dereferencing of kid references (hence linear work) for the name tree walker; its termination is structural (depth cap); direct (non-reference) kid dictionaries are not modelled",
